@@ -44,6 +44,11 @@ CHECKS = {
    "For every combination the request is sent with and without the seven forwarded headers through the real middleware chain (trustedproxy first), real request context extraction, real rules keyed on scheme/host/method/path and an echoing finalizer; for an untrusted peer nothing observable may differ and no spoofed value may reach the recording upstream; for a trusted peer each present header must override exactly its component.",
    "Reference reading of 'listed in trusted_proxies': parsable peer address equal to / contained in a parsable entry; X-Forwarded-Path semantics and the choice among repeated fields are not judged.",
    "DESIGN.md 4 C09"),
+ "C08": ("exploration", "enum",
+   "bounded exhaustive enumeration of all re-encodings of designated unreserved octets and all encoded-slash insertions x rule-set shapes x encoded-slash settings through the real decision and proxy services; metamorphic oracle against the canonical spelling plus the encoded-slash table",
+   "Every spelling of three canonical paths in which any subset of up to five unreserved octets is percent-encoded in upper or lower hex (3^5 per path) and every insertion of %2F/%2f into the last segment is sent as raw bytes through http.ReadRequest and the real handler chains for five rule-set shapes and the three settings; matched rule, captures and decision must equal those of the canonical spelling; encoded slashes must be rejected (off/default rule), preserved (no_decode) or decoded (on) in captures and in the request line received by the recording upstream.",
+   "Paths of <=3 segments; reserved characters other than '/' are not explored; hex case of a preserved escape is not judged.",
+   "DESIGN.md 4 C08"),
 }
 
 NOT_YET = {
